@@ -1,9 +1,9 @@
 """C15 case generator (cross-cutting): the union of all properties' ops plus the c15.* ops.
 
 Four streams:
- A  owners' streams: every other property's generator is loaded and sampled per op (quick: the first
-    OWNER_HEAD cases of every op -- the boundary lattices come first -- plus a seeded fraction of the
-    rest; thorough: everything);
+ A  owners' streams: every other property's generator (its quick tier) is loaded and sampled per op: the first
+    OWNER_HEAD cases of every op -- the boundary lattices come first -- plus a seeded fraction of the rest
+    (4 % quick, 50 % thorough; the owners' own checks run their full streams);
  B  extremes: for up to TEMPLATES distinct sample cases of EVERY op, every integer argument (top level and
     inside value tuples) is replaced by every integer extreme (i32/u32/i64/u64 MIN/MAX +-2, 0, +-1, 2^31,
     2^32, 2^63, ...), and every value tuple by the extreme values of every kind of its arity (dates /
@@ -40,7 +40,7 @@ OWNERS = ['C01', 'C02', 'C03', 'C04', 'C06', 'C07', 'C08', 'C09', 'C10', 'C11', 
 # their own refine hook in C01)
 SKIP_OPS = {'d.range'}
 OWNER_HEAD = 250
-OWNER_FRAC = {'quick': 0.04, 'thorough': 1.0}
+OWNER_FRAC = {'quick': 0.04, 'thorough': 0.5}
 TEMPLATES = 3
 
 INT_EXTREMES = sorted(set(around([I32_MIN, I32_MAX, 0, U32_MAX, I64_MIN, I64_MAX, U64_MAX, 2**31, 2**32, 2**63],
@@ -81,7 +81,7 @@ def owner_stream(tier, rng, templates):
         sub = random.Random(rng.getrandbits(64))
         pick = random.Random(rng.getrandbits(64))
         seen = {}
-        for line in mod.cases('quick' if tier == 'quick' else 'thorough', sub):
+        for line in mod.cases('quick', sub):
             op = line.split(' ', 1)[0]
             if op in SKIP_OPS:
                 continue
@@ -193,6 +193,30 @@ PARSE_TEXTS = {
 }
 
 
+# (specifier, value kind, (format, text) before, (format, text) after, tokens): name-like items whose scanners
+# compare bytes case-insensitively and then slice by the matched length
+TOKEN_ITEMS = [
+    ('%p', 1, ('%I:%M ', '11:59 '), ('', ''), ['am', 'PM', 'Am', 'pm']),
+    ('%P', 1, ('%I:%M ', '01:00 '), ('', ''), ['am', 'pm', 'AM']),
+    ('%p', 1, ('', ''), (' %I', ' 11'), ['am', 'pm']),
+    ('%a', 0, ('', ''), (' %Y-%m-%d', ' 2020-01-01'), ['Wed', 'wed', 'WED', 'Wednesday']),
+    ('%A', 0, ('', ''), (' %Y-%m-%d', ' 2020-01-01'), ['Wednesday', 'Wed', 'wednesday', 'Thu']),
+    ('%b', 0, ('%Y %d ', '2020 01 '), ('', ''), ['Jan', 'jan', 'JAN', 'January', 'May', 'Sept']),
+    ('%B', 0, ('%Y %d ', '2020 01 '), ('', ''), ['January', 'september', 'May', 'Dec']),
+    ('%h', 0, ('%Y %d ', '2020 01 '), ('', ''), ['Feb', 'mar']),
+    ('%z', 3, ('%Y-%m-%dT%H:%M:%S', '2020-01-01T00:00:00'), ('', ''), ['+0930', '-09:30', 'Z', 'z', '+09', 'UTC', '−05:00']),
+    ('%:z', 3, ('%Y-%m-%dT%H:%M:%S', '2020-01-01T00:00:00'), ('', ''), ['+09:30', '-0930', '+09 : 30']),
+    ('%#z', 3, ('%Y-%m-%dT%H:%M:%S', '2020-01-01T00:00:00'), ('', ''), ['+09', '+0930', '-09:30']),
+    ('%Z', 3, ('%Y-%m-%dT%H:%M:%S%z ', '2020-01-01T00:00:00+0000 '), ('', ''), ['UTC', 'CEST', 'utc']),
+    ('%+', 3, ('', ''), ('', ''), ['2020-01-01T00:00:00Z', '2020-01-01t00:00:00+09:30']),
+    ('%.f', 1, ('%H:%M:%S', '23:59:59'), ('', ''), ['.5', '.123456789', '.']),
+    ('%3f', 1, ('%H:%M:%S', '23:59:59'), ('', ''), ['123', '12']),
+    ('%c', 2, ('', ''), ('', ''), ['Wed Jan  1 00:00:00 2020']),
+    ('%v', 0, ('', ''), ('', ''), [' 1-Jan-2020']),
+    ('%r', 1, ('', ''), ('', ''), ['11:59:59 PM', '11:59:59 am']),
+]
+
+
 def b(s):
     return s.encode('utf-8')
 
@@ -286,7 +310,7 @@ def format_strings(tier, rng):
     # (the model's item list / output text are built by list appends: the number of ITEMS is kept below 10^4)
     out += ['%c' * 600 + 'a' * 8800, 'é' * 5000, '%' * 10000, '%Y-%m-%d ' * 1111, '%-' * 5000, '\U0001f63d' * 2500, ' ' * 10000, '%:' * 5000,
             'a' * 9999 + '%', '%.3' * 3333, '%é' * 3333, 'a' * 8800 + '%+%c' * 300]
-    n = 3000 if tier == 'quick' else 60000
+    n = 3000 if tier == 'quick' else 20000
     for _ in range(n):
         k = rng.random()
         if k < 0.6:
@@ -358,7 +382,16 @@ def text_stream(tier, rng):
                 for m in muts:
                     yield case_line('c15.rem', kind, b(m), b(f))
                     yield case_line('fp.parse', kind, b(m), b(f))
-    n = 6000 if tier == 'quick' else 150000
+    # byte-index slicing only after an ASCII match (scan.rs names / offsets, parse.rs AM/PM): every prefix of every
+    # token of a name-like item, continued or cut short by a multi-byte character
+    for spec, kind, lead, trail, tokens in TOKEN_ITEMS:
+        for tok in tokens:
+            for k in range(len(tok) + 1):
+                for m in MULTI:
+                    for text in (tok[:k] + m, tok[:k] + m + tok[k + 1:], tok[:k] + m + tok[k:]):
+                        yield case_line('c15.rem', kind, b(lead[1] + text + trail[1]), b(lead[0] + spec + trail[0]))
+                    yield case_line('fp.parse', kind, b(lead[1] + tok[:k] + m + trail[1]), b(lead[0] + spec + trail[0]))
+    n = 6000 if tier == 'quick' else 40000
     for _ in range(n):
         kind = rng.randint(0, 3)
         f = rng.choice(short) if rng.random() < 0.6 else rng.choice(PARSE_FMTS[kind])
@@ -394,13 +427,13 @@ def text_stream(tier, rng):
                 muts = muts[:1] + rng.sample(muts, min(len(muts), 60))
             for m in muts:
                 yield case_line(op, *(list(pre) + [b(m)]))
-        for _ in range(300 if tier == 'quick' else 8000):
+        for _ in range(300 if tier == 'quick' else 3000):
             t = rand_unicode(rng, rng.choice([0, 1, 2, 3, 5, 10, 30])) if rng.random() < 0.6 else rand_utf8_from_bytes(rng, rng.choice([1, 2, 4, 9, 30]))
             yield case_line(op, *(list(pre) + [b(t)]))
     # explicit item lists with arbitrary text
     items_pool = [[0, b('é')], [0, b('-')], [1, b(' ')], [1, b('　')], [4]] + [[2, k, p] for k in range(21) for p in range(3)] + \
                  [[3, k] for k in list(range(19)) + [100, 101, 102, 103]]
-    for _ in range(4000 if tier == 'quick' else 100000):
+    for _ in range(4000 if tier == 'quick' else 30000):
         items = [rng.choice(items_pool) for _ in range(rng.choice([0, 1, 1, 2, 3, 5]))]
         kind = rng.randint(0, 3)
         k = rng.random()
